@@ -591,16 +591,17 @@ type feedKind struct {
 
 var feeds = []feedKind{{"one-piece", 0}, {"byte-at-a-time", 1}}
 
-func newCase(stream []byte, client bool, every int) *httpgen.Case {
-	return &httpgen.Case{Stream: stream, Client: client, Mode: httpgen.Real, ReadLimit: -1, Policy: track.Pooled, Every: every, Lite: true}
+// newCase: maxBody is Engine.MaxHTTPBodySize (0: the default, no limit).
+func newCase(stream []byte, client bool, every, maxBody int) *httpgen.Case {
+	return &httpgen.Case{Stream: stream, Client: client, Mode: httpgen.Real, ReadLimit: -1, MaxBody: maxBody, Policy: track.Pooled, Every: every, Lite: true}
 }
 
 // judge runs nbhttp on a stream the reference has parsed into gos and returns the disagreements.
 // With attribute set, a disagreement in a message that has predecessors on the connection is
 // re-examined: the message is parsed alone on a fresh parser, and when it does not fail the same
 // way there, the signature names the predecessors' features (carried state), see attribute.
-func judge(gos []goMsg, stream []byte, client bool, every int, attr bool) (viol []mismatch, r *httpgen.Result) {
-	r = httpgen.Run(newCase(stream, client, every), true)
+func judge(gos []goMsg, stream []byte, client bool, every, maxBody int, attr bool) (viol []mismatch, r *httpgen.Result) {
+	r = httpgen.Run(newCase(stream, client, every, maxBody), true)
 	if len(r.Panics) > 0 {
 		viol = append(viol, mismatch{sig: "panic-in-parse", desc: r.Panics[0], msg: -1})
 	}
@@ -664,7 +665,7 @@ func judge(gos []goMsg, stream []byte, client bool, every int, attr bool) (viol 
 		}
 	}
 	if attr {
-		attribute(viol, gos, stream, client, every)
+		attribute(viol, gos, stream, client, every, maxBody)
 	}
 	return viol, r
 }
@@ -675,7 +676,7 @@ func judge(gos []goMsg, stream []byte, client bool, every int, attr bool) (viol 
 // (pipeline-successor-rejected / -not-delivered / -differs pred=<features>[> ...] succ=<features>).
 // With two predecessors the smallest subset behind which the message still fails the same way is
 // named (the nearer one first), so that one defect does not get a signature per bystander.
-func attribute(viol []mismatch, gos []goMsg, stream []byte, client bool, every int) {
+func attribute(viol []mismatch, gos []goMsg, stream []byte, client bool, every, maxBody int) {
 	msgBytes := func(j int) []byte {
 		from := 0
 		if j > 0 {
@@ -697,7 +698,7 @@ func attribute(viol []mismatch, gos []goMsg, stream []byte, client bool, every i
 			}
 			sub = append(sub, msgBytes(i)...)
 			if sg, err := goParse(sub, client); err == nil && len(sg) == len(preds)+1 {
-				av, _ := judge(sg, sub, client, every, false)
+				av, _ := judge(sg, sub, client, every, maxBody, false)
 				for _, a := range av {
 					if a.msg == len(preds) {
 						sigs[a.sig] = true
@@ -773,13 +774,57 @@ func nontrivialRef(gos []goMsg) bool {
 }
 
 // check runs the reference and nbhttp on one stream and returns the violations (replay).
-func check(stream []byte, client bool, every int) (viol []mismatch, refErr error, gos []goMsg, res *httpgen.Result) {
+func check(stream []byte, client bool, every, maxBody int) (viol []mismatch, refErr error, gos []goMsg, res *httpgen.Result) {
 	gos, refErr = goParse(stream, client)
 	if refErr != nil {
 		return nil, refErr, nil, nil
 	}
-	viol, res = judge(gos, stream, client, every, true)
+	if maxBody > 0 {
+		viol, res = judgeLimited(gos, stream, client, every, maxBody)
+	} else {
+		viol, res = judge(gos, stream, client, every, 0, true)
+	}
 	return viol, nil, gos, res
+}
+
+// maxBodyLen is the length of the largest body of the stream (as the reference extracted it).
+func maxBodyLen(gos []goMsg) int {
+	n := 0
+	for i := range gos {
+		if len(gos[i].body) > n {
+			n = len(gos[i].body)
+		}
+	}
+	return n
+}
+
+// judgeLimited runs the stream with Engine.MaxHTTPBodySize = maxBody, a limit no body of the
+// stream exceeds: it must not change anything. Returned are the disagreements the same stream
+// does not show without a limit, their signatures marked with where the limit sits.
+func judgeLimited(gos []goMsg, stream []byte, client bool, every, maxBody int) ([]mismatch, *httpgen.Result) {
+	base, _ := judge(gos, stream, client, every, 0, true)
+	seen := map[string]bool{}
+	for _, b := range base {
+		seen[b.sig] = true
+	}
+	viol, r := judge(gos, stream, client, every, maxBody, true)
+	where := fmt.Sprintf("max-body=%d", maxBody)
+	switch maxBody - maxBodyLen(gos) {
+	case 0:
+		where = "max-body=exactly-the-largest-body"
+	case 1:
+		where = "max-body=largest-body+1"
+	}
+	var out []mismatch
+	for _, v := range viol {
+		if seen[v.sig] {
+			continue
+		}
+		v.sig += " " + where
+		v.desc += fmt.Sprintf(" | Engine.MaxHTTPBodySize=%d, largest body of the stream %d bytes; without a limit the stream does not show this", maxBody, maxBodyLen(gos))
+		out = append(out, v)
+	}
+	return out, r
 }
 
 // stream evaluates one stream under both feeds. outside != "" marks a form that net/http accepts
@@ -796,7 +841,7 @@ func (e *evaluator) stream(m *httpgen.Msg, client bool, outside string) {
 	}
 	nontrivial := nontrivialRef(gos)
 	for _, fk := range feeds {
-		viol, r := judge(gos, m.B, client, fk.every, true)
+		viol, r := judge(gos, m.B, client, fk.every, 0, true)
 		p.Case(nontrivial, 1, r.Feeds)
 		p.Count("cases."+fk.name, 1)
 		p.Count("messages_compared", len(gos))
@@ -814,7 +859,7 @@ func (e *evaluator) stream(m *httpgen.Msg, client bool, outside string) {
 			continue
 		}
 		for _, v := range viol {
-			p.Report(v.sig, v.desc+" | feed: "+fk.name+" | stream: "+m.Desc, scenario, newCase(m.B, client, fk.every).Input(m.Desc))
+			p.Report(v.sig, v.desc+" | feed: "+fk.name+" | stream: "+m.Desc, scenario, newCase(m.B, client, fk.every, 0).Input(m.Desc))
 		}
 		if len(viol) == 0 {
 			p.Outcome("agree")
@@ -822,6 +867,74 @@ func (e *evaluator) stream(m *httpgen.Msg, client bool, outside string) {
 			p.Outcome("differ")
 		}
 	}
+}
+
+// limited evaluates one stream under both feeds with Engine.MaxHTTPBodySize at exactly the size
+// of its largest body and one above: a limit the well-formed message does not exceed never
+// changes the result (what happens above the limit is C08's subject).
+func (e *evaluator) limited(m *httpgen.Msg, client bool) {
+	p := e.p
+	p.Count("streams.with_body_limit", 1)
+	gos, refErr := goParse(m.B, client)
+	if refErr != nil {
+		p.Count("reference_rejected", 1)
+		p.Count("reference_rejected: "+refErr.Error(), 1)
+		return
+	}
+	n := maxBodyLen(gos)
+	if n == 0 {
+		return // 0 means "no limit": a stream without a body has no limit to sit at
+	}
+	atLimit := 0
+	for i := range gos {
+		if len(gos[i].body) == n {
+			atLimit++
+		}
+	}
+	for _, lim := range []int{n, n + 1} {
+		for _, fk := range feeds {
+			viol, r := judgeLimited(gos, m.B, client, fk.every, lim)
+			p.Case(true, 1, r.Feeds)
+			p.Count("cases.with_body_limit."+fk.name, 1)
+			p.Count("messages_compared", len(gos))
+			if lim == n {
+				p.Count("messages_with_body_exactly_at_the_limit", atLimit)
+			}
+			for _, v := range viol {
+				p.Report(v.sig, v.desc+" | feed: "+fk.name+" | stream: "+m.Desc, scenario, newCase(m.B, client, fk.every, lim).Input(m.Desc))
+			}
+			if len(viol) == 0 {
+				p.Outcome("agree")
+			} else {
+				p.Outcome("differ")
+			}
+		}
+	}
+}
+
+// limitBodies are the body-carrying forms of the limit dimension: Content-Length and chunked with
+// 1-3 chunks, without and with trailers, below and above the 1 KiB pooled buffer; big marks the
+// ones that stay out of the triples.
+func limitBodies() (out []bodyForm, big map[string]bool) {
+	P := httpgen.Payload
+	clb := func(n int) httpgen.Body { return httpgen.Body{Kind: httpgen.BodyCL, Data: P(n, 0)} }
+	ch := func(sizes ...int) httpgen.Body {
+		b := httpgen.Body{Kind: httpgen.BodyChunked, Chunks: [][]byte{}}
+		for i, n := range sizes {
+			b.Chunks = append(b.Chunks, P(n, i+1))
+		}
+		return b
+	}
+	t1, t2 := tr("A", H{"A", " 1"}), tr("A, B-c", H{"A", " 1"}, H{"B-c", " 22"})
+	ext := ch(10, 5)
+	ext.Ext = ";x=y"
+	out = []bodyForm{
+		{name: "cl1", b: clb(1)}, {name: "cl3", b: clb(3)}, {name: "cl300", b: clb(300)}, {name: "cl1500", b: clb(1500)},
+		{name: "ch[1]", b: ch(1)}, {name: "ch[3]", b: ch(3)}, {name: "ch[10,5]", b: ch(10, 5)}, {name: "ch[3,2,4]", b: ch(3, 2, 4)},
+		{name: "ch[300]", b: ch(300)}, {name: "ch[1000,100]", b: ch(1000, 100)},
+		{name: "ch[3]-t1", b: t1(ch(3))}, {name: "ch[10,5]-ext-t2", b: t2(ext)}, {name: "ch[3,2,4]-t2", b: t2(ch(3, 2, 4))}, {name: "ch[2,2]-t1", b: t1(ch(2, 2))},
+	}
+	return out, map[string]bool{"cl1500": true, "ch[1000,100]": true}
 }
 
 // ---------------------------------------------------------------------------------------------
@@ -1232,6 +1345,69 @@ func run(tier string, sh *vkit.Shard, p *vkit.Part) {
 			}
 		}
 	}
+	// configured limit: Engine.MaxHTTPBodySize at exactly the largest body of the stream and one
+	// above, for every body-carrying form alone (x Connection form x position x version) and in
+	// all ordered pairs / triples of these forms plus a bodiless and an empty-body member
+	lb, big := limitBodies()
+	limConns := []connForm{nil, {" close"}, {" keep-alive"}}
+	dimsL := []int{len(lb), len(limConns), 2, len(versions), 2}
+	httpgen.Product(dimsL, 1, func(lin int, ix []int) {
+		b, cf, ff, ver, client := lb[ix[0]], limConns[ix[1]], ix[2] == 1, versions[ix[3]], ix[4] == 1
+		if ver == "HTTP/1.0" && b.b.Kind == httpgen.BodyChunked {
+			return
+		}
+		item(func() {
+			var m *httpgen.Msg
+			if client {
+				m = (&httpgen.Res{Version: ver, Status: "200 OK", Headers: withConn([]H{{"X-A", " v"}}, cf, ix[0]%2), Body: b.b, FramingFirst: ff}).Build()
+			} else {
+				m = (&httpgen.Req{Method: "POST", Target: "/", Version: ver, Headers: withConn([]H{{"Host", " h"}, {"X-A", " v"}}, cf, ix[0]%3), Body: b.b, FramingFirst: ff}).Build()
+			}
+			m.Desc = fmt.Sprintf("lim#%d client=%v %s conn=%q body=%s framingFirst=%v", lin, client, ver, []string(cf), b.name, ff)
+			e.limited(m, client)
+			p.Count("limit_single_messages", 1)
+		})
+	})
+	for _, client := range []bool{false, true} {
+		client := client
+		type lrep struct {
+			m   *httpgen.Msg
+			big bool
+		}
+		var lreps []lrep
+		for i, b := range append([]bodyForm{{name: "none", b: httpgen.Body{Kind: httpgen.BodyNone}}, {name: "cl0", b: httpgen.Body{Kind: httpgen.BodyCL, Data: []byte{}}}}, lb...) {
+			var m *httpgen.Msg
+			if client {
+				st := "200 OK"
+				if b.b.Kind == httpgen.BodyNone {
+					st = "204 No Content"
+				}
+				m = (&httpgen.Res{Version: "HTTP/1.1", Status: st, Headers: []H{{"X-R", fmt.Sprintf(" l%d", i)}}, Body: b.b, FramingFirst: i%2 == 1}).Build()
+			} else {
+				m = (&httpgen.Req{Method: "POST", Target: fmt.Sprintf("/l%d", i), Version: "HTTP/1.1", Headers: []H{{"Host", " h"}, {"X-R", fmt.Sprintf(" l%d", i)}}, Body: b.b, FramingFirst: i%2 == 1}).Build()
+			}
+			m.Desc = fmt.Sprintf("l%d:%s", i, b.name)
+			lreps = append(lreps, lrep{m, big[b.name]})
+		}
+		for _, a := range lreps {
+			for _, b := range lreps {
+				a, b := a, b
+				item(func() {
+					e.limited(httpgen.Pipeline(a.m, b.m), client)
+					p.Count("limit_pipelines", 1)
+					if a.big || b.big {
+						return
+					}
+					for _, c := range lreps {
+						if !c.big {
+							e.limited(httpgen.Pipeline(a.m, b.m, c.m), client)
+							p.Count("limit_pipelines", 1)
+						}
+					}
+				})
+			}
+		}
+	}
 	if skipped > 0 {
 		p.Incompletef("wall-clock cap reached: %d work items of this shard were not enumerated", skipped)
 	}
@@ -1243,7 +1419,8 @@ func replay(_ string, raw json.RawMessage) string {
 		return "bad replay input: " + err.Error()
 	}
 	fmt.Printf("stream (%d bytes): %s\nevery=%d client=%v\n", len(c.Stream), in.Stream, c.Every, c.Client)
-	viol, refErr, gos, r := check(c.Stream, c.Client, c.Every)
+	fmt.Printf("Engine.MaxHTTPBodySize=%d\n", c.MaxBody)
+	viol, refErr, gos, r := check(c.Stream, c.Client, c.Every, c.MaxBody)
 	if refErr != nil {
 		fmt.Println("reference rejects the stream:", refErr)
 		return ""
@@ -1264,7 +1441,7 @@ func replay(_ string, raw json.RawMessage) string {
 func main() {
 	vkit.Main(&vkit.Spec{
 		Property: "C07", Level: "model_checking",
-		Rule: "one case = (well-formed byte stream, feed); the feed is one piece or byte-at-a-time; the stream is (a) one message of the grammar: full product of body/framing spelling x Connection form x header set x framing-header position x method x target x version (responses: x status); (b) one message of the cross forms - header features that are legal on every framing class, on the classes the base product lacks them: a Trailer declaration (one name, a list, two lines, lower case) on every bodiless / Content-Length form, a declaration written in front of Transfer-Encoding or over two lines on chunked forms, Transfer-Encoding spellings x {no chunk, trailers}, Content-Length spellings of an empty body - x Connection form x header set x position x version; (c) responses: 17 status-line spellings inside the RFC 7230 grammar (empty reason-phrase, several words, leading digit / punctuation, HTAB, surrounding SP) x one body form per framing class x Connection form x header set x position x version; (d) every ordered pair and triple of the 10 base requests / 8 base responses; (e) every ordered pair of the representative set - one representative per (framing class x body presence: bodiless, Content-Length 0 / 3, chunked without / with a chunk) x (trailer declaration: none, names A, names B-c + D; declared and sent on a chunked message, declared only on any other) x (Connection form / version: HTTP/1.1 absent / keep-alive / close / 'x, close', HTTP/1.0 absent / keep-alive), each with its own target and marker header; responses: + 15 status-line spellings - and every ordered triple of its core (no Connection header, HTTP/1.1; thorough: of the whole set). The stream is parsed by net/http (reference) and by the real nbhttp parser + Server/ClientProcessor and every listed field of every message plus the message boundary offset is compared; a message with predecessors that disagrees is also parsed alone on a fresh parser and, when it agrees there, reported as carried state with the predecessors' features in the signature. A case is non-trivial when the reference saw a body, a trailer, a Connection header / close decision, or more than one message; streams the reference rejects are excluded and counted",
+		Rule: "one case = (well-formed byte stream, feed); the feed is one piece or byte-at-a-time; the stream is (a) one message of the grammar: full product of body/framing spelling x Connection form x header set x framing-header position x method x target x version (responses: x status); (b) one message of the cross forms - header features that are legal on every framing class, on the classes the base product lacks them: a Trailer declaration (one name, a list, two lines, lower case) on every bodiless / Content-Length form, a declaration written in front of Transfer-Encoding or over two lines on chunked forms, Transfer-Encoding spellings x {no chunk, trailers}, Content-Length spellings of an empty body - x Connection form x header set x position x version; (c) responses: 17 status-line spellings inside the RFC 7230 grammar (empty reason-phrase, several words, leading digit / punctuation, HTAB, surrounding SP) x one body form per framing class x Connection form x header set x position x version; (d) every ordered pair and triple of the 10 base requests / 8 base responses; (e) every ordered pair of the representative set - one representative per (framing class x body presence: bodiless, Content-Length 0 / 3, chunked without / with a chunk) x (trailer declaration: none, names A, names B-c + D; declared and sent on a chunked message, declared only on any other) x (Connection form / version: HTTP/1.1 absent / keep-alive / close / 'x, close', HTTP/1.0 absent / keep-alive), each with its own target and marker header; responses: + 15 status-line spellings - and every ordered triple of its core (no Connection header, HTTP/1.1; thorough: of the whole set); (f) the configured body limit: 14 body-carrying forms (Content-Length 1 / 3 / 300 / 1500, chunked with 1-3 chunks up to 1100 bytes, without and with trailers and extensions) alone (x Connection form x position x version, requests and responses) and in every ordered pair (triple: without the two forms above 1 KiB) of these forms plus a bodiless and an empty-body member, each run with Engine.MaxHTTPBodySize at exactly the largest body of the stream and at one above, and compared with the reference and with its own result without a limit. The stream is parsed by net/http (reference) and by the real nbhttp parser + Server/ClientProcessor and every listed field of every message plus the message boundary offset is compared; a message with predecessors that disagrees is also parsed alone on a fresh parser and, when it agrees there, reported as carried state with the predecessors' features in the signature. A case is non-trivial when the reference saw a body, a trailer, a Connection header / close decision, or more than one message; streams the reference rejects are excluded and counted",
 		Assumptions: []string{
 			"reference: http.ReadRequest / http.ReadResponse (Go 1.23) in a loop over one bufio.Reader, body read to EOF so that trailers are populated; consumed bytes = stream length - unread bytes",
 			"header multimap compared minus the framing headers net/http removes (Host, Transfer-Encoding, and on a chunked message Content-Length and Trailer, Connection once close has been recorded) and with values trimmed of SP/HT on both sides; on a non-chunked message net/http keeps Trailer as a plain header and it is compared like any other",
@@ -1273,6 +1450,7 @@ func main() {
 			"a status line that ends behind the status code without the SP ('HTTP/1.1 200' CRLF) is accepted by net/http but is outside the RFC 7230 3.1.2 grammar: it is run and what nbhttp does is counted (outside_grammar[...]), not judged",
 			"trailer fields: a field line with an empty value, with internal spaces, or repeated is well-formed (RFC 7230 3.2 / 4.1.2) and part of the compared space",
 			"pipelines: the harness connection does not act on a close decision, so the parser is expected to go on with the messages behind one that ends the connection, as the reference's reader loop does (parser-level agreement on the message boundaries)",
+			"configuration: Engine.MaxHTTPBodySize is 0 (no limit) except in part (f), where it sits at or one above the largest body of the stream: a limit that no message exceeds must not change the result (over-limit behaviour and Engine.ReadLimit are C08's subject); ReadLimit is nbhttp's default everywhere",
 			"per-case allocator: httpgen's lite allocator (fresh per case, no recycling, freed memory poisoned, no call-site attribution); ownership violations belong to C11 and are only counted",
 		},
 		Seq: run, ReplaySeq: replay, MinNonTrivial: 1000,
